@@ -40,12 +40,14 @@ Section Log.
     match v with
     | LNum x => Ok [(tag, fmt x)]
     | LArr shape data forder =>
-      if 1 <? lsize shape then
+      (* np.ndim(s.state) > 0 (repaired code, /repo 4543698): every array goes through np.nditer, which refuses
+         arrays without entries *)
+      if lsize shape =? 0 then Err ValueError
+      else
         Ok (flat_map (fun idx => match nth_error data (Z.to_nat (offset shape idx)) with
                                  | Some x => [(tag ++ idx_name idx, fmt x)]
                                  | None => []
                                  end) (iter_indices shape forder))
-      else Err TypeError      (* ndarray.__format__ with a non-empty format string *)
     end.
 
   Fixpoint all_cols (sigs : list (str * lval)) : res (list (str * str)) :=
